@@ -20,7 +20,7 @@ def _bare(ii):
 
 def edges_of(adj):
     n = len(adj)
-    return [(u + 1, v + 1) for u in range(n) for v in range(u + 1, n) if adj[u][v]]
+    return [(u + 1, v + 1) for u in range(n) for v in range(u, n) if adj[u][v]]     # v = u: a self-loop
 
 
 def permute_sir(s, perm):
